@@ -31,7 +31,7 @@ var revalAlphabet = []string{"G0", "G1", "G2", "G3", "G4", "G5", "X", "Y", "B", 
 // good" whatever it prints, so it renews the stored entry all the same.
 // etag-304-payload-fields: the 304 carries Content-Length: 0 and a Content-Type of its own (fields
 // that describe the 304's empty payload, not the stored body).
-var revalSchemes = []string{"etag", "lm", "both", "none", "weak", "etag-304-weakens", "etag-304-rotates", "etag-304-bare", "etag-304-payload-fields"}
+var revalSchemes = []string{"etag", "lm", "both", "none", "weak", "etag-304-weakens", "etag-304-rotates", "etag-304-bare", "etag-304-payload-fields", "weak-sticky-200"}
 
 func clientConditional(kind string, now time.Time) vnet.H {
 	switch kind {
@@ -118,6 +118,11 @@ func runRevalCase(c *vrun.Ctx, env *penv, scheme string, hist []string, defaultA
 		case "etag-304-bare":
 			res.ETag = vnet.ETagFor(name, res.Version)
 			res.ETag304 = "-"
+		case "weak-sticky-200":
+			// a weak tag that stays the same while the content changes, on an origin that ignores
+			// conditionals: every revalidation is answered 200 with the current body, which replaces the stored one
+			res.ETag = `W/"sticky-` + name + `"`
+			res.NoConditionals = true
 		case "etag-304-payload-fields":
 			res.ETag = vnet.ETagFor(name, res.Version)
 			res.Headers304 = vnet.H{{"Content-Length", "0"}, {"Content-Type", "text/html; charset=utf-8"}, {"X-Only-On-304", "yes"}}
